@@ -29,6 +29,8 @@ pub uninterp spec fn argvec_items<R: RealNumberInternalTrait>(v: ArgVec<R>) -> S
 // error kinds and the location an error carries (SchemeError = Located<ErrorData>, opaque here)
 pub uninterp spec fn err_location(e: SchemeError) -> Option<[u32; 2]>;
 /*LOCATED_AT*/
+/*VAL_CLAUSE*/
+/*KIND_CLAUSE*/
 pub uninterp spec fn is_unbound_symbol(e: SchemeError) -> bool;
 pub uninterp spec fn is_type_mismatch(e: SchemeError) -> bool;
 pub uninterp spec fn is_unexpected_expression(e: SchemeError) -> bool;
@@ -109,14 +111,14 @@ pub open spec fn eval_sem<R: RealNumberInternalTrait>(e: Expression, env: Rc<Env
     decreases e
 {
     match e.data {
-        ExpressionBody::Primitive(p) => r == prim_result::<R>(p),
-        ExpressionBody::Datum(d) => r == literal_result(d, env),
-        ExpressionBody::Quote(d) => r == literal_result(*d, env),
+        ExpressionBody::Primitive(p) => val(r == prim_result::<R>(p)),
+        ExpressionBody::Datum(d) => val(r == literal_result(d, env)),
+        ExpressionBody::Quote(d) => val(r == literal_result(*d, env)),
         // C08 / C15: reading an unbound variable is the UnboundedSymbol error, located AT THE IDENTIFIER
-        ExpressionBody::Symbol(_) => r is Ok || (is_unbound_symbol(r->Err_0) && located_at(r->Err_0, e.location)),
-        ExpressionBody::Period => r is Err && is_unexpected_expression(r->Err_0) && located_at(r->Err_0, e.location),
+        ExpressionBody::Symbol(_) => r is Ok || (kind(is_unbound_symbol(r->Err_0)) && located_at(r->Err_0, e.location)),
+        ExpressionBody::Period => r is Err && kind(is_unexpected_expression(r->Err_0)) && located_at(r->Err_0, e.location),
         // a lambda expression closes over the CURRENT frame
-        ExpressionBody::Procedure(scheme) => r == Ok::<Value<R>, SchemeError>(Value::Procedure(Procedure::User(scheme, env))),
+        ExpressionBody::Procedure(scheme) => val(r == Ok::<Value<R>, SchemeError>(Value::Procedure(Procedure::User(scheme, env)))),
         // set!: the value is evaluated first; its error is passed on; otherwise Void or the error of the assignment itself
         ExpressionBody::Assignment(_, value_expr) => exists|vr: Result<Value<R>>| #[trigger] obs(*value_expr, env, vr) && eval_sem(*value_expr, env, vr) && match vr {
             Err(e0) => r == Err::<Value<R>, SchemeError>(e0),
@@ -127,12 +129,11 @@ pub open spec fn eval_sem<R: RealNumberInternalTrait>(e: Expression, env: Rc<Env
             let (test, consequent, alternative) = *c;
             exists|tr: Result<Value<R>>| #[trigger] obs(test, env, tr) && eval_sem(test, env, tr) && match tr {
                 Err(e0) => r == Err::<Value<R>, SchemeError>(e0),
-                Ok(tv) => if truthy(tv) { eval_sem(consequent, env, r) } else {
-                    match alternative {
+                // (with the value clauses switched off -- units interp_eval / interp_eval_kind -- r is the result of ONE of the arms)
+                Ok(tv) => (val(truthy(tv)) && eval_sem(consequent, env, r)) || (val(!truthy(tv)) && match alternative {
                         Some(alt) => eval_sem(alt, env, r),
-                        None => r == Ok::<Value<R>, SchemeError>(Value::Void),
-                    }
-                },
+                        None => val(r == Ok::<Value<R>, SchemeError>(Value::Void)),
+                    }),
             }
         }
         // call: operator, then operands; C08 / C15: a non-procedure operator is the TypeMisMatch error located AT THE OPERATOR;
@@ -152,7 +153,7 @@ pub open spec fn eval_sem<R: RealNumberInternalTrait>(e: Expression, env: Rc<Env
                     Err(e1) => r == Err::<Value<R>, SchemeError>(e1),
                     Ok(vs) => apply_rel(p, vs, env, r),
                 },
-                _ => r is Err && is_type_mismatch(r->Err_0) && located_at(r->Err_0, pe.location),
+                _ => r is Err && kind(is_type_mismatch(r->Err_0)) && located_at(r->Err_0, pe.location),
             },
         },
     }
@@ -163,8 +164,16 @@ LOCATED_FULL = """/// C15: the location an error carries
 pub open spec fn located_at(e: SchemeError, loc: Option<[u32; 2]>) -> bool { err_location(e) == loc }"""
 LOCATED_KIND = """/// unit interp_eval_kind (C08) decides the KIND of the error only: where it is located is C15's business (unit interp_eval)
 pub open spec fn located_at(e: SchemeError, loc: Option<[u32; 2]>) -> bool { true }"""
-PRELUDE = PRELUDE_T.replace("/*LOCATED_AT*/", LOCATED_FULL)
-PRELUDE_KIND = PRELUDE_T.replace("/*LOCATED_AT*/", LOCATED_KIND)
+_ON = "pub open spec fn %s(b: bool) -> bool { b }"
+_OFF = "pub open spec fn %s(b: bool) -> bool { true }"
+def _variant(located, val, kind):
+    return (PRELUDE_T.replace("/*LOCATED_AT*/", located)
+            .replace("/*VAL_CLAUSE*/", "/// the clauses about WHICH VALUE an expression has (C01): " + ("on" if val else "off in this unit") + "\n" + (_ON if val else _OFF) % "val")
+            .replace("/*KIND_CLAUSE*/", "/// the clauses about WHICH KIND of error is raised (C08): " + ("on" if kind else "off in this unit") + "\n" + (_ON if kind else _OFF) % "kind"))
+# one obligation belongs to one property: C15 = where an error is located; C08 = which kind it is; C01 = which value is computed
+PRELUDE = _variant(LOCATED_FULL, False, False)
+PRELUDE_KIND = _variant(LOCATED_KIND, False, True)
+PRELUDE_VALUE = _variant(LOCATED_KIND, True, False)
 
 UNIT = {
     "props": ["C15", "C07"],
